@@ -1393,3 +1393,431 @@ Proof.
       rewrite (E3 y Hn Hy2 Hy1), upd_other by exact Hn. reflexivity.
   - repeat match type of Hs with context [match ?v with _ => _ end] => destruct v; try discriminate end.
 Qed.
+
+(* =========================================================================================== *)
+(* Part 5: dead variables.  Code that does not read the names in D (in the sense of
+   fixes._is_read_after_loop: a later loop / comprehension over a name shields its own body) runs alike in
+   two environments that differ on D only. *)
+
+Definition SD (D : list nat) : nat -> bool := fun y => negb (memn y D).
+
+Definition dead_in (D : list nat) (e : cx) : Prop := forall n, memn n D = true -> rd n e = false.
+
+Definition dfr (w : world) (e : cx) : Prop := forall D, dead_in D e -> framed (SD D) w e.
+
+Definition dparts (w : world) (e : cx) : Prop :=
+  match e with
+  | XGen _ it ifs => dfr w it /\ Forall (dfr w) ifs
+  | XKV k v => dfr w k /\ dfr w v
+  | XDStar v => dfr w v
+  | _ => True
+  end.
+
+Lemma dead_in_list : forall D (l : list cx), (forall n, memn n D = true -> existsb (rd n) l = false) ->
+  forall a, List.In a l -> dead_in D a.
+Proof.
+  intros D l H a Ha n Hn. specialize (H n Hn). destruct (rd n a) eqn:E; [|reflexivity].
+  assert (existsb (rd n) l = true) by (apply existsb_exists; exists a; split; assumption). congruence.
+Qed.
+
+Lemma Forall_dfr : forall w D l, Forall (dfr w) l ->
+  (forall n, memn n D = true -> existsb (rd n) l = false) -> Forall (framed (SD D) w) l.
+Proof.
+  intros w D l H HD. rewrite Forall_forall in *. intros a Ha. apply (H a Ha), (dead_in_list D l HD a Ha).
+Qed.
+
+Lemma memn_filter : forall y (f : nat -> bool) l, memn y (filter f l) = memn y l && f y.
+Proof.
+  intros y f l. induction l as [|a l IH]; [reflexivity|]. cbn [filter]. destruct (f a) eqn:E; cbn [memn existsb].
+  - fold (memn y (filter f l)). fold (memn y l). rewrite IH. destruct (Nat.eqb y a) eqn:E2; [|reflexivity].
+    apply Nat.eqb_eq in E2. subst. rewrite E. cbn. destruct (memn a l); reflexivity.
+  - fold (memn y (filter f l)). fold (memn y l). rewrite IH. destruct (Nat.eqb y a) eqn:E2; [|reflexivity].
+    apply Nat.eqb_eq in E2. subst. rewrite E. cbn. rewrite andb_false_r. reflexivity.
+Qed.
+
+(* dict items / comprehension clauses whose parts are dead-framed *)
+Lemma items_dfr : forall w D l, Forall (fun e => dfr w e /\ dparts w e) l ->
+  (forall n, memn n D = true -> existsb (rd n) l = false) -> Forall (framed_item (SD D) w) l.
+Proof.
+  intros w D l H HD. rewrite Forall_forall in *. intros a Ha. destruct (H a Ha) as [_ Hp].
+  pose proof (dead_in_list D l HD a Ha) as Hd. destruct a; cbn [framed_item dparts] in *; try exact I.
+  - destruct Hp as [Hk Hv]. split; [apply Hk | apply Hv]; intros n Hn; specialize (Hd n Hn); cbn [rd] in Hd;
+      apply orb_false_iff in Hd; apply Hd.
+  - apply Hp. exact Hd.
+Qed.
+
+Lemma gens_dfr : forall w D l, Forall (fun e => dfr w e /\ dparts w e) l ->
+  (forall n, memn n D = true -> existsb (rd n) l = false) -> Forall (framed_gen (SD D) w) l.
+Proof.
+  intros w D l H HD. rewrite Forall_forall in *. intros a Ha. destruct (H a Ha) as [_ Hp].
+  pose proof (dead_in_list D l HD a Ha) as Hd. destruct a; cbn [framed_gen dparts] in *; try exact I.
+  destruct Hp as [Hit Hifs]. split.
+  - apply Hit. intros n Hn. specialize (Hd n Hn). cbn [rd] in Hd. apply orb_false_iff in Hd. apply Hd.
+  - apply Forall_dfr; [exact Hifs|]. intros n Hn. specialize (Hd n Hn). cbn [rd] in Hd. apply orb_false_iff in Hd. apply Hd.
+Qed.
+
+Lemma Forall_fst : forall (P Q : cx -> Prop) l, Forall (fun e => P e /\ Q e) l -> Forall P l.
+Proof. intros P Q l H. rewrite Forall_forall in *. intros a Ha. apply (H a Ha). Qed.
+
+Lemma eval_dead_all : forall w e, dfr w e /\ dparts w e.
+Proof.
+  intros w e. induction e using cx_ind'.
+  - split; [|exact I]. intros D HD en1 en2 tr A. reflexivity.
+  - split; [|exact I]. intros D HD en1 en2 tr A. cbn [eval]. rewrite (A x); [reflexivity|].
+    unfold SD. destruct (memn x D) eqn:E; [|reflexivity]. specialize (HD x E). cbn [rd] in HD.
+    rewrite Nat.eqb_refl in HD. discriminate.
+  - split; [|exact I]. intros D HD en1 en2 tr A. cbn [eval].
+    rewrite (ev_list_frame (SD D) w args (Forall_dfr w D args (Forall_fst _ _ _ H) HD) en1 en2 tr A). reflexivity.
+  - split; [|exact I]. intros D HD en1 en2 tr A. cbn [eval].
+    rewrite (ev_list_frame (SD D) w args (Forall_dfr w D args (Forall_fst _ _ _ H) HD) en1 en2 tr A). reflexivity.
+  - split; [|exact I]. intros D HD en1 en2 tr A. cbn [eval].
+    rewrite (ev_list_frame (SD D) w args (Forall_dfr w D args (Forall_fst _ _ _ H) HD) en1 en2 tr A). reflexivity.
+  - split; [|exact I]. intros D HD en1 en2 tr A. cbn [eval].
+    rewrite (ev_items_frame (SD D) w args (items_dfr w D args H HD) en1 en2 [] tr A). reflexivity.
+  - split; [|exact I]. intros D HD.
+    assert (H1 : framed (SD D) w e1) by (apply IHe1; intros n Hn; specialize (HD n Hn); cbn [rd] in HD; apply orb_false_iff in HD; apply HD).
+    assert (H2 : framed (SD D) w e2) by (apply IHe2; intros n Hn; specialize (HD n Hn); cbn [rd] in HD; apply orb_false_iff in HD; apply HD).
+    intros en1 en2 tr A. cbn [eval]. rewrite (H1 en1 en2 tr A).
+    destruct (eval w e1 en2 tr) as [[a tr1]|]; [|reflexivity]. rewrite (H2 en1 en2 tr1 A). reflexivity.
+  - split; [|exact I]. intros D HD. assert (H1 : framed (SD D) w e) by (apply IHe; exact HD).
+    intros en1 en2 tr A. cbn [eval]. rewrite (H1 en1 en2 tr A). reflexivity.
+  - split; [|exact I]. intros D HD. assert (H1 : framed (SD D) w e) by (apply IHe; exact HD).
+    intros en1 en2 tr A. cbn [eval]. rewrite (H1 en1 en2 tr A). reflexivity.
+  - split; [|exact I]. intros D HD en1 en2 tr A. cbn [eval].
+    apply (ev_bool_frame (SD D)); [apply (Forall_dfr w D args (Forall_fst _ _ _ H) HD) | exact A].
+  - (* XComp: inside, the names that the comprehension binds are bound (or unbound) alike on both sides *)
+    split; [|exact I]. intros D HD en1 en2 tr A. cbn [eval].
+    destruct gens as [|g rest]; [reflexivity|]. destruct g; try reflexivity.
+    set (ts := gens_targets (XGen t g ifs :: rest)) in *.
+    set (D' := filter (fun y => negb (memn y ts)) D).
+    inversion H as [|? ? Hg Hrest]; subst. destruct Hg as [_ [Hit Hifs]].
+    assert (HD' : forall n, memn n D' = true ->
+                  rd n e1 = false /\ rd n e2 = false /\ existsb (rd n) ifs = false /\ existsb (rd n) rest = false).
+    { intros n Hn. unfold D' in Hn. rewrite memn_filter in Hn. apply andb_true_iff in Hn as [Hn1 Hn2].
+      apply negb_true_iff in Hn2. specialize (HD n Hn1). cbn [rd] in HD. fold ts in HD. rewrite Hn2 in HD.
+      cbn [existsb rd] in HD.
+      apply orb_false_iff in HD as [HD HD3]. apply orb_false_iff in HD as [HD1 HD2].
+      apply orb_false_iff in HD3 as [HD3 HD4]. apply orb_false_iff in HD3 as [HD3 HD5]. repeat split; assumption. }
+    assert (Hfirst : framed (SD D) w g).
+    { apply Hit. intros n Hn. specialize (HD n Hn). cbn [rd] in HD. fold ts in HD. destruct (memn n ts).
+      - exact HD.
+      - cbn [existsb rd] in HD. apply orb_false_iff in HD as [_ HD]. apply orb_false_iff in HD as [HD _].
+        apply orb_false_iff in HD as [HD _]. exact HD. }
+    rewrite (Hfirst en1 en2 tr A). destruct (eval w g en2 tr) as [[v tr1]|]; [|reflexivity].
+    destruct (items_of v) as [xs|]; [|reflexivity].
+    assert (He : framed (SD D') w e1) by (apply IHe1; intros n Hn; apply (HD' n Hn)).
+    assert (Hd : framed (SD D') w e2) by (apply IHe2; intros n Hn; apply (HD' n Hn)).
+    assert (Hifs' : Forall (framed (SD D') w) ifs) by (apply Forall_dfr; [exact Hifs | intros n Hn; apply (HD' n Hn)]).
+    assert (HGr : Forall (framed_gen (SD D') w) rest) by (apply gens_dfr; [exact Hrest | intros n Hn; apply (HD' n Hn)]).
+    assert (A' : agree_on (SD D') (mask ts en1) (mask ts en2)).
+    { intros y Hy. unfold mask. destruct (memn y ts) eqn:E; [reflexivity|]. apply A. unfold SD in *. unfold D' in Hy.
+      rewrite memn_filter, E in Hy. cbn in Hy. rewrite andb_true_r in Hy. exact Hy. }
+    pose proof (iter_items_rel (SD D')
+      (clause_body (eval w) ifs (run_gens (eval w) (leaf_of (eval w) k e1 e2) rest))
+      (clause_body (eval w) ifs (run_gens (eval w) (leaf_of (eval w) k e1 e2) rest)) t
+      (fun e1' e2' tr' acc' A0 =>
+         clause_body_rel (SD D') w ifs _ _ Hifs'
+           (run_gens_rel (SD D') w _ _ rest HGr (leaf_of_rel (SD D') w k e1 e2 He Hd)) e1' e2' tr' acc' A0)
+      xs (mask ts en1) (mask ts en2) tr1 [] A') as R.
+    unfold res_rel in R.
+    destruct (iter_items _ t xs (mask ts en1) tr1 []) as [[[e1' a1] t1]|],
+             (iter_items _ t xs (mask ts en2) tr1 []) as [[[e2' a2] t2]|]; try contradiction; [|reflexivity].
+    destruct R as [-> [-> _]]. reflexivity.
+  - (* XGen *)
+    split.
+    + intros D HD en1 en2 tr A. reflexivity.
+    + cbn [dparts]. split; [apply IHe | apply (Forall_fst _ _ _ H)].
+  - (* XMap *)
+    split; [|exact I]. intros D HD.
+    assert (Hb : framed (SD D) w e1) by (apply IHe1; intros n Hn; specialize (HD n Hn); cbn [rd] in HD; apply orb_false_iff in HD; apply HD).
+    assert (Hi : framed (SD D) w e2) by (apply IHe2; intros n Hn; specialize (HD n Hn); cbn [rd] in HD; apply orb_false_iff in HD; apply HD).
+    intros en1 en2 tr A. cbn [eval]. rewrite (Hi en1 en2 tr A).
+    destruct (eval w e2 en2 tr) as [[v tr1]|]; [|reflexivity]. destruct (items_of v) as [xs|]; [|reflexivity].
+    erewrite lam_items_ext; [reflexivity|]. intros x tr'. cbn beta.
+    rewrite (Hb (upd en1 a x) (upd en2 a x) tr' (agree_on_upd (SD D) en1 en2 a x A)). reflexivity.
+  - (* XFilter *)
+    split; [|exact I]. intros D HD.
+    assert (Hb : framed (SD D) w e1) by (apply IHe1; intros n0 Hn; specialize (HD n0 Hn); cbn [rd] in HD; apply orb_false_iff in HD; apply HD).
+    assert (Hi : framed (SD D) w e2) by (apply IHe2; intros n0 Hn; specialize (HD n0 Hn); cbn [rd] in HD; apply orb_false_iff in HD; apply HD).
+    intros en1 en2 tr A. cbn [eval]. rewrite (Hi en1 en2 tr A).
+    destruct (eval w e2 en2 tr) as [[v tr1]|]; [|reflexivity]. destruct (items_of v) as [xs|]; [|reflexivity].
+    erewrite lam_items_ext; [reflexivity|]. intros x tr'. cbn beta.
+    rewrite (Hb (upd en1 a x) (upd en2 a x) tr' (agree_on_upd (SD D) en1 en2 a x A)). reflexivity.
+  - split.
+    + intros D HD en1 en2 tr A. reflexivity.
+    + cbn [dparts]. split; [apply IHe1 | apply IHe2].
+  - split.
+    + intros D HD en1 en2 tr A. reflexivity.
+    + cbn [dparts]. apply IHe.
+Qed.
+
+Lemma eval_dead : forall w e D en1 en2 tr, dead_in D e -> agree_on (SD D) en1 en2 ->
+  eval w e en1 tr = eval w e en2 tr.
+Proof. intros w e D en1 en2 tr H A. destruct (eval_dead_all w e) as [F _]. apply (F D H), A. Qed.
+
+(* ---- statements ---- *)
+
+Lemma st_reads_blk : forall fe sh n l,
+  (fix blk (l : list st) : bool := match l with [] => false | s1 :: l' => st_reads fe sh n s1 || blk l' end) l
+  = block_reads fe sh n l.
+Proof. intros fe sh n. induction l as [|a l IH]; [reflexivity|]. cbn [block_reads existsb]. rewrite IH. reflexivity. Qed.
+
+Lemma st_reads_For : forall fe sh n t it body orelse,
+  st_reads fe sh n (SFor t it body orelse) =
+  fe n it || (if sh && memn n (tnames t) then false else block_reads fe sh n body) || block_reads fe sh n orelse.
+Proof. intros. cbn [st_reads]. rewrite !st_reads_blk. reflexivity. Qed.
+
+Lemma st_reads_If : forall fe sh n c body orelse,
+  st_reads fe sh n (SIf c body orelse) = fe n c || block_reads fe sh n body || block_reads fe sh n orelse.
+Proof. intros. cbn [st_reads]. rewrite !st_reads_blk. reflexivity. Qed.
+
+Definition dead_st (D : list nat) (s : st) : Prop := forall n, memn n D = true -> st_rd n s = false.
+Definition dead_blk (D : list nat) (l : list st) : Prop := forall n, memn n D = true -> blk_rd n l = false.
+
+Definition ex_rel (D : list nat) (r1 r2 : option (env * trace)) : Prop :=
+  match r1, r2 with
+  | Some (e1, t1), Some (e2, t2) => t1 = t2 /\ agree_on (SD D) e1 e2
+  | None, None => True
+  | _, _ => False
+  end.
+
+Definition exec_dead_at (w : world) (s : st) : Prop :=
+  forall D en1 en2 tr, dead_st D s -> agree_on (SD D) en1 en2 -> ex_rel D (exec w s en1 tr) (exec w s en2 tr).
+
+Lemma block_dead : forall w l, Forall (exec_dead_at w) l ->
+  forall D en1 en2 tr, dead_blk D l -> agree_on (SD D) en1 en2 ->
+  ex_rel D (exec_block w l en1 tr) (exec_block w l en2 tr).
+Proof.
+  intros w l H. induction H as [|s l Hs _ IH]; intros D en1 en2 tr HD A; cbn [exec_block].
+  - cbn. auto.
+  - assert (H1 : dead_st D s).
+    { intros n Hn. specialize (HD n Hn). unfold blk_rd, block_reads in HD. cbn [existsb] in HD. apply orb_false_iff in HD. apply HD. }
+    assert (H2 : dead_blk D l).
+    { intros n Hn. specialize (HD n Hn). unfold blk_rd, block_reads in HD. cbn [existsb] in HD. apply orb_false_iff in HD. apply HD. }
+    pose proof (Hs D en1 en2 tr H1 A) as R. unfold ex_rel in R.
+    destruct (exec w s en1 tr) as [[e1 t1]|], (exec w s en2 tr) as [[e2 t2]|]; try contradiction; [|exact I].
+    destruct R as [-> A']. apply IH; assumption.
+Qed.
+
+Lemma SD_not_in : forall D x, memn x D = false -> SD D x = true.
+Proof. intros D x H. unfold SD. rewrite H. reflexivity. Qed.
+
+Lemma exec_dead : forall w s, exec_dead_at w s.
+Proof.
+  intros w s. induction s using st_ind'; intros D en1 en2 tr HD A; unfold dead_st, st_rd in HD.
+  - (* SAssign *)
+    cbn [exec]. rewrite (eval_dead w e D en1 en2 tr); [|intros n Hn; apply (HD n Hn)|exact A].
+    destruct (eval w e en2 tr) as [[v tr1]|]; [|exact I]. cbn. split; [reflexivity | apply agree_on_upd, A].
+  - (* SMeth *)
+    destruct r as [x|x k].
+    + assert (Hx : en1 x = en2 x).
+      { apply A, SD_not_in. destruct (memn x D) eqn:E; [|reflexivity]. specialize (HD x E). cbn [st_reads recv_name] in HD.
+        rewrite Nat.eqb_refl in HD. discriminate. }
+      cbn [exec]. rewrite Hx. destruct (en2 x) as [c|]; [|exact I].
+      rewrite (eval_dead w e D en1 en2 tr); [| |exact A].
+      * destruct (eval w e en2 tr) as [[a tr1]|]; [|exact I]. destruct (meth_val m c a); [|exact I].
+        cbn. split; [reflexivity | apply agree_on_upd, A].
+      * intros n Hn. specialize (HD n Hn). cbn [st_reads] in HD. apply orb_false_iff in HD. apply HD.
+    + assert (Hx : en1 x = en2 x).
+      { apply A, SD_not_in. destruct (memn x D) eqn:E; [|reflexivity]. specialize (HD x E). cbn [st_reads recv_name] in HD.
+        rewrite Nat.eqb_refl in HD. discriminate. }
+      assert (Hk : dead_in D k).
+      { intros n Hn. specialize (HD n Hn). cbn [st_reads recv_exprs existsb] in HD.
+        apply orb_false_iff in HD as [HD _]. apply orb_false_iff in HD as [_ HD]. rewrite orb_false_r in HD. exact HD. }
+      assert (He : dead_in D e).
+      { intros n Hn. specialize (HD n Hn). cbn [st_reads] in HD. apply orb_false_iff in HD. apply HD. }
+      cbn [exec]. rewrite Hx. destruct (en2 x) as [[]|]; try exact I.
+      rewrite (eval_dead w k D en1 en2 tr Hk A). destruct (eval w k en2 tr) as [[kv tr1]|]; [|exact I].
+      destruct (if hashable kv then dict_get d kv else None) as [c|]; [|exact I].
+      rewrite (eval_dead w e D en1 en2 tr1 He A). destruct (eval w e en2 tr1) as [[a tr2]|]; [|exact I].
+      destruct (meth_val m c a); [|exact I]. cbn. split; [reflexivity | apply agree_on_upd, A].
+  - (* SAug *)
+    assert (Hx : en1 x = en2 x).
+    { apply A, SD_not_in. destruct (memn x D) eqn:E; [|reflexivity]. specialize (HD x E). cbn [st_reads] in HD.
+      rewrite Nat.eqb_refl in HD. discriminate. }
+    cbn [exec]. rewrite Hx. destruct (en2 x) as [a|]; [|exact I].
+    rewrite (eval_dead w e D en1 en2 tr); [| |exact A].
+    + destruct (eval w e en2 tr) as [[b tr1]|]; [|exact I]. destruct (aug_val o a b); [|exact I].
+      cbn. split; [reflexivity | apply agree_on_upd, A].
+    + intros n Hn. specialize (HD n Hn). cbn [st_reads] in HD. apply orb_false_iff in HD. apply HD.
+  - (* SSetItem *)
+    assert (Hx : en1 x = en2 x).
+    { apply A, SD_not_in. destruct (memn x D) eqn:E; [|reflexivity]. specialize (HD x E). cbn [st_reads] in HD.
+      rewrite Nat.eqb_refl in HD. discriminate. }
+    assert (Hk : dead_in D k).
+    { intros n Hn. specialize (HD n Hn). cbn [st_reads] in HD. apply orb_false_iff in HD as [HD _].
+      apply orb_false_iff in HD. apply HD. }
+    assert (Hv : dead_in D v).
+    { intros n Hn. specialize (HD n Hn). cbn [st_reads] in HD. apply orb_false_iff in HD. apply HD. }
+    cbn [exec]. rewrite (eval_dead w v D en1 en2 tr Hv A). destruct (eval w v en2 tr) as [[vv tr1]|]; [|exact I].
+    rewrite Hx. destruct (en2 x) as [[]|]; try exact I.
+    rewrite (eval_dead w k D en1 en2 tr1 Hk A). destruct (eval w k en2 tr1) as [[kv tr2]|]; [|exact I].
+    destruct (hashable kv); [|exact I]. cbn. split; [reflexivity | apply agree_on_upd, A].
+  - (* SExpr *)
+    cbn [exec]. rewrite (eval_dead w e D en1 en2 tr); [|intros n Hn; apply (HD n Hn)|exact A].
+    destruct (eval w e en2 tr) as [[v tr1]|]; [|exact I]. cbn. split; [reflexivity | exact A].
+  - (* SFor *)
+    rewrite !exec_For.
+    assert (Hit : dead_in D it).
+    { intros n Hn. specialize (HD n Hn). rewrite st_reads_For in HD. apply orb_false_iff in HD as [HD _].
+      apply orb_false_iff in HD. apply HD. }
+    rewrite (eval_dead w it D en1 en2 tr Hit A). destruct (eval w it en2 tr) as [[v tr1]|]; [|exact I].
+    destruct (items_of v) as [xs|]; [|exact I].
+    set (D' := filter (fun y => negb (memn y (tnames t))) D).
+    assert (Hbody : dead_blk D' body).
+    { intros n Hn. unfold D' in Hn. rewrite memn_filter in Hn. apply andb_true_iff in Hn as [Hn1 Hn2].
+      apply negb_true_iff in Hn2. specialize (HD n Hn1). rewrite st_reads_For in HD. rewrite Hn2 in HD. cbn [andb] in HD.
+      apply orb_false_iff in HD as [HD _]. apply orb_false_iff in HD. apply HD. }
+    assert (Horelse : dead_blk D orelse).
+    { intros n Hn. specialize (HD n Hn). rewrite st_reads_For in HD. apply orb_false_iff in HD. apply HD. }
+    assert (Hloop : forall xs en1 en2 tr, agree_on (SD D) en1 en2 ->
+              ex_rel D (for_items (exec_block w body) t xs en1 tr) (for_items (exec_block w body) t xs en2 tr)).
+    { induction xs0 as [|x xs0 IHxs]; intros e1 e2 tr0 A0; cbn [for_items].
+      - cbn. auto.
+      - pose proof (agree_on_bind (SD D) t x e1 e2 A0) as Hb.
+        destruct (bind t x e1) as [e1'|] eqn:B1, (bind t x e2) as [e2'|] eqn:B2; try contradiction; [|exact I].
+        assert (A1 : agree_on (SD D') e1' e2').
+        { pose proof (bind_agree_more (SD D) t x e1 e2 e1' e2' B1 B2 A0) as A1. intros y Hy. apply A1.
+          unfold SD, D' in *. rewrite memn_filter in Hy. destruct (memn y D); [|reflexivity]. cbn in *.
+          destruct (memn y (tnames t)); [reflexivity | discriminate]. }
+        pose proof (block_dead w body H D' e1' e2' tr0 Hbody A1) as R. unfold ex_rel in R.
+        destruct (exec_block w body e1' tr0) as [[f1 t1]|], (exec_block w body e2' tr0) as [[f2 t2]|]; try contradiction; [|exact I].
+        destruct R as [-> A2]. apply IHxs. intros y Hy. apply A2. unfold SD, D' in *. rewrite memn_filter.
+        apply negb_true_iff in Hy. rewrite Hy. reflexivity. }
+    pose proof (Hloop xs en1 en2 tr1 A) as R. unfold ex_rel in R.
+    destruct (for_items (exec_block w body) t xs en1 tr1) as [[f1 t1]|],
+             (for_items (exec_block w body) t xs en2 tr1) as [[f2 t2]|]; try contradiction; [|exact I].
+    destruct R as [-> A2]. apply (block_dead w orelse H0 D f1 f2 t2 Horelse A2).
+  - (* SIf *)
+    rewrite !exec_If.
+    assert (Hc : dead_in D c).
+    { intros n Hn. specialize (HD n Hn). rewrite st_reads_If in HD. apply orb_false_iff in HD as [HD _].
+      apply orb_false_iff in HD. apply HD. }
+    rewrite (eval_dead w c D en1 en2 tr Hc A). destruct (eval w c en2 tr) as [[cv tr1]|]; [|exact I].
+    destruct (truthy cv).
+    + apply (block_dead w body H); [|exact A]. intros n Hn. specialize (HD n Hn). rewrite st_reads_If in HD.
+      apply orb_false_iff in HD as [HD _]. apply orb_false_iff in HD. apply HD.
+    + apply (block_dead w orelse H0); [|exact A]. intros n Hn. specialize (HD n Hn). rewrite st_reads_If in HD.
+      apply orb_false_iff in HD. apply HD.
+Qed.
+
+Lemma exec_block_dead : forall w l D en1 en2 tr, dead_blk D l -> agree_on (SD D) en1 en2 ->
+  ex_rel D (exec_block w l en1 tr) (exec_block w l en2 tr).
+Proof. intros w l. apply block_dead. apply Forall_forall. intros s _. apply exec_dead. Qed.
+
+(* ---- a rewritten site followed by code that does not read what the loop leaves behind ---- *)
+
+Definition site_rel (w : world) (Tg : list nat) (pre pre' : list st) : Prop :=
+  forall en tr en1 tr1, exec_block w pre en tr = Some (en1, tr1) ->
+  exists en2, exec_block w pre' en tr = Some (en2, tr1) /\ forall y, memn y Tg = false -> en1 y = en2 y.
+
+Lemma in_context : forall w Tg pre pre' rest,
+  site_rel w Tg pre pre' -> dead_blk Tg rest -> site_rel w Tg (pre ++ rest) (pre' ++ rest).
+Proof.
+  intros w Tg pre pre' rest Hsite Hdead en tr en1 tr1 Hex. rewrite exec_block_app in Hex.
+  destruct (exec_block w pre en tr) as [[em tm]|] eqn:Hp; [|discriminate].
+  destruct (Hsite en tr em tm Hp) as [em2 [Hp2 Ha]].
+  assert (A : agree_on (SD Tg) em em2).
+  { intros y Hy. apply Ha. unfold SD in Hy. apply negb_true_iff in Hy. exact Hy. }
+  pose proof (exec_block_dead w rest Tg em em2 tm Hdead A) as R. unfold ex_rel in R. rewrite Hex in R.
+  destruct (exec_block w rest em2 tm) as [[en2 t2]|] eqn:Hr; [|contradiction]. destruct R as [<- A2].
+  exists en2. split.
+  - rewrite exec_block_app, Hp2. exact Hr.
+  - intros y Hy. apply A2. unfold SD. rewrite Hy. reflexivity.
+Qed.
+
+Lemma dead_after_blk : forall rest Tg, dead_after (fun n => blk_rd n rest) Tg = true -> dead_blk Tg rest.
+Proof.
+  intros rest Tg H n Hn. unfold dead_after in H. rewrite forallb_forall in H. apply memn_In in Hn.
+  specialize (H n Hn). apply negb_true_iff in H. exact H.
+Qed.
+
+Lemma setlist_dead : forall after s1 s2 s', site_setlist after s1 s2 = Some s' ->
+  dead_after after (site_targets s2) = true.
+Proof.
+  intros after s1 s2 s' Hs. unfold site_setlist in Hs. unfold site_targets.
+  destruct s1 as [x value| | | | | |]; try discriminate.
+  destruct (loop_shape s2) as [[cl leaf]|]; [|discriminate].
+  destruct (dead_after after (clause_targets cl)) eqn:E; [reflexivity|]. exfalso.
+  cbv zeta in Hs.
+  destruct leaf as [| r m e | x' o e | | | |]; try discriminate.
+  - destruct r as [x'|]; [|discriminate]. destruct m; try discriminate.
+    + destruct value; try discriminate. destruct k; try discriminate. destruct elts; [|discriminate].
+      rewrite !andb_false_r in Hs. discriminate.
+    + destruct value; try discriminate. destruct b; try discriminate. destruct args; [|discriminate].
+      rewrite !andb_false_r in Hs. discriminate.
+  - destruct (int_literal value); [|destruct o; discriminate].
+    destruct o; try discriminate; rewrite !andb_false_r in Hs; discriminate.
+Qed.
+
+Theorem setlist_in_context : forall w s1 s2 s' rest,
+  site_setlist (fun n => blk_rd n rest) s1 s2 = Some s' -> site_scoped s1 s2 = true ->
+  site_rel w (site_targets s2) (s1 :: s2 :: rest) (s' :: rest).
+Proof.
+  intros w s1 s2 s' rest Hs Hsc.
+  apply (in_context w (site_targets s2) [s1; s2] [s'] rest).
+  - intros en tr en1 tr1 Hex. eapply setlist_site_sound; eassumption.
+  - apply dead_after_blk. eapply setlist_dead; eassumption.
+Qed.
+
+Lemma fold_dead : forall is_set after s1 s2 s', site_fold is_set after s1 s2 = Some s' ->
+  dead_after after (match s2 with SFor t _ _ _ => tnames t | _ => [] end) = true.
+Proof.
+  intros is_set after s1 s2 s' Hs. unfold site_fold in Hs.
+  destruct s2 as [| | | | | t it body orelse |]; try reflexivity.
+  destruct (dead_after after (tnames t)) eqn:E; [reflexivity|]. exfalso.
+  cbv zeta in Hs. destruct s1 as [x value| | | | | |]; try discriminate.
+  destruct ((if is_set then union_start else plus_start) value); [|discriminate].
+  destruct body as [|b [|? ?]]; try discriminate; destruct b; try discriminate; destruct r as [x'|]; try discriminate.
+  destruct orelse; [|discriminate]. rewrite !andb_false_r in Hs. discriminate.
+Qed.
+
+Theorem fold_in_context : forall w is_set s1 s2 s' rest,
+  site_fold is_set (fun n => blk_rd n rest) s1 s2 = Some s' ->
+  (match s1 with SAssign _ value => fold_typed is_set s2 value | _ => false end) = true ->
+  site_rel w (match s2 with SFor t _ _ _ => tnames t | _ => [] end) (s1 :: s2 :: rest) (s' :: rest).
+Proof.
+  intros w is_set s1 s2 s' rest Hs Hty.
+  apply (in_context w _ [s1; s2] [s'] rest).
+  - intros en tr en1 tr1 Hex. eapply fold_site_sound; eassumption.
+  - apply dead_after_blk. eapply fold_dead; eassumption.
+Qed.
+
+Lemma nested_dead_after : forall fresh after s s', site_nested fresh after s = Some s' ->
+  dead_after after (nested_dead s) = true.
+Proof.
+  intros fresh after s s' Hs. unfold site_nested in Hs. unfold nested_dead.
+  destruct s as [| | | | | t it body orelse |]; try discriminate. destruct orelse; [|discriminate].
+  destruct (down (SFor t it body [])) as [[ifs0 cl] leaf].
+  destruct leaf as [|s1 [|s2 [|? ?]]]; try discriminate.
+  - destruct s1; try discriminate. destruct m; try discriminate.
+    rewrite app_nil_r. destruct (dead_after after (clause_targets cl)); [reflexivity|]. cbn [andb] in Hs. discriminate.
+  - destruct s1 as [c e| ? m0 ? | | | | |]; try discriminate; try (destruct m0; discriminate).
+    destruct s2; try discriminate. destruct m; try discriminate. destruct e0; try discriminate.
+    destruct (Nat.eqb c x && negb (mentions c e) && negb (existsb (mentions c) (map (gen_of false) cl))); [|discriminate].
+    destruct (dead_after after (clause_targets cl ++ [c])); [reflexivity|]. cbn [andb] in Hs. discriminate.
+  - repeat match type of Hs with context [match ?v with _ => _ end] => destruct v; try discriminate end.
+Qed.
+
+Theorem nested_in_context : forall w fresh s s' rest x l0,
+  site_nested fresh (fun n => blk_rd n rest) s = Some s' -> nested_guard fresh s = true ->
+  nested_receiver s = Some x ->
+  forall en tr en1 tr1, en x = Some (VList l0) ->
+  exec_block w (s :: rest) en tr = Some (en1, tr1) ->
+  exists en2, exec_block w (s' :: rest) en tr = Some (en2, tr1)
+    /\ forall y, memn y (nested_dead s) = false -> en1 y = en2 y.
+Proof.
+  intros w fresh s s' rest x l0 Hs Hg Hr en tr en1 tr1 Hx Hex.
+  change (s :: rest) with ([s] ++ rest) in Hex. rewrite exec_block_app in Hex.
+  destruct (exec_block w [s] en tr) as [[em tm]|] eqn:Hp; [|discriminate].
+  destruct (nested_site_sound w fresh _ s s' Hs Hg x l0 en tr em tm Hr Hx Hp) as [em2 [Hp2 Ha]].
+  assert (A : agree_on (SD (nested_dead s)) em em2).
+  { intros y Hy. apply Ha. unfold SD in Hy. apply negb_true_iff in Hy. exact Hy. }
+  pose proof (exec_block_dead w rest (nested_dead s) em em2 tm
+                (dead_after_blk rest _ (nested_dead_after fresh _ s s' Hs)) A) as R.
+  unfold ex_rel in R. rewrite Hex in R.
+  destruct (exec_block w rest em2 tm) as [[en2 t2]|] eqn:Hrr; [|contradiction]. destruct R as [<- A2].
+  exists en2. split.
+  - change (s' :: rest) with ([s'] ++ rest). rewrite exec_block_app, Hp2. exact Hrr.
+  - intros y Hy. apply A2. unfold SD. rewrite Hy. reflexivity.
+Qed.
